@@ -150,7 +150,10 @@ class Obs:
         self.ok = self.end is not None
 
     def discarded(self, k):
-        return k in self.G and self.G[k]["e"] == "DISC"
+        """rejected as busy: Get2 reported the discard error WITHOUT waiting (at the instant Send returned).  A task whose
+        handler returned some pool's discard error as its own error (behaviour error code 101) also ends with DISC, but
+        only after its attempts"""
+        return k in self.G and self.G[k]["e"] == "DISC" and (k not in self.SR or self.G[k]["t"] == self.SR[k]["t"])
 
     def cancel(self):
         """the first cancellation of the dispatchers' parent context (dict t,k,n,idx) or None"""
